@@ -210,9 +210,12 @@ const (
 	opEmptyBstr  = "emptybytes"      // value := h''
 	opSelfDesc   = "selfdescribed"   // value := 55799(value)  (the tag every CBOR decoder strips)
 	opSelfDescNu = "selfdescribed-null" // value := 55799(null)
+	opZeroBytes  = "zerobytes"          // byte string := all zero (same length)
+	opTruncArr   = "truncate-array"     // array loses its last element
+	opExtendArr  = "extend-array"       // array's last element duplicated
 )
 
-var structuralOps = []string{opNull, opUndef, opDropKey, opEmptyArr, opEmptyMap, opZeroInt, opEmptyBstr, opSelfDesc, opSelfDescNu}
+var structuralOps = []string{opNull, opUndef, opDropKey, opEmptyArr, opEmptyMap, opZeroInt, opEmptyBstr, opSelfDesc, opSelfDescNu, opZeroBytes, opTruncArr, opExtendArr}
 
 func simple(v uint64) *cbormut.Node { return &cbormut.Node{Major: 7, Val: v} }
 
@@ -236,6 +239,24 @@ func applyStructural(root **cbormut.Node, p pos, op string) bool {
 		repl = &cbormut.Node{Major: 6, Val: 55799, Items: []*cbormut.Node{p.node}}
 	case opSelfDescNu:
 		repl = &cbormut.Node{Major: 6, Val: 55799, Items: []*cbormut.Node{simple(22)}}
+	case opZeroBytes:
+		if p.node.Major != 2 || len(p.node.Bytes) == 0 || bytes.Equal(p.node.Bytes, make([]byte, len(p.node.Bytes))) {
+			return false
+		}
+		p.node.Bytes = make([]byte, len(p.node.Bytes))
+		return true
+	case opTruncArr:
+		if p.node.Major != 4 || len(p.node.Items) == 0 {
+			return false
+		}
+		p.node.Items = p.node.Items[:len(p.node.Items)-1]
+		return true
+	case opExtendArr:
+		if p.node.Major != 4 || len(p.node.Items) == 0 {
+			return false
+		}
+		p.node.Items = append(p.node.Items, p.node.Items[len(p.node.Items)-1].Clone())
+		return true
 	case opDropKey:
 		if p.parent == nil || p.parent.Major != 5 {
 			return false
